@@ -345,7 +345,8 @@ def run(ctx):
         # a proof obligation broke and the regular volume found nothing: search the racy families at 30x volume
         ctx.log("proof broken: searching the create/delete families at 30x volume")
         extra = [dict(c, rounds=c["rounds"] * 30) for c in cases if c["family"] in ("create_same_name", "create_same_port", "delete_same", "create_delete_mixed")] + \
-                [dict(c, rounds=c["rounds"] * 10) for c in cases if c["family"] in ("stop_vs_toxic_churn", "toxic_mixed")]
+                [dict(c, rounds=c["rounds"] * 10) for c in cases if c["family"] in ("stop_vs_toxic_churn", "toxic_mixed")] + \
+                [dict(c, rounds=max(c["rounds"], 1) * 40) for c in cases if c["family"] == "enable_vs_delete"]
         for j, c in enumerate(extra):
             c["group"] = j % 6
         saved = cases
